@@ -92,6 +92,20 @@ pub fn gen(seed: u64, n: usize) -> Vec<Value> {
                               "ltype": if rng.random_bool(0.5) { "count" } else { "padded" }});
             }
             let limit = [0usize, 1, 2, 3, 5, 8, 16, 33, 64][rng.random_range(0..9)];
+            if i % 25 == 3 {
+                // sizes and limits beyond 8 and 16 bits (item sizes of tens of thousands of tokens, limits of hundreds of thousands)
+                let big: Vec<usize> = (0..rng.random_range(0..=12)).map(|_| [0usize, 1, 255, 256, 300, 65535, 65536, 70000][rng.random_range(0..8)]).collect();
+                let limit = [255usize, 256, 65535, 65536, 140000, 300000][rng.random_range(0..6)];
+                return json!({"kind": "batched", "sizes": big, "sort": rng.random_bool(0.5), "shuffle": rng.random_bool(0.5),
+                              "pf": rng.random_range(0..=3), "limit": limit, "ltype": "padded", "seed": rng.random::<u32>()});
+            }
+            if i % 25 == 4 {
+                // many items per batch: counts beyond 8 bits
+                let many: Vec<usize> = (0..rng.random_range(250..=600)).map(|_| rng.random_range(0..=2)).collect();
+                let lim = [255usize, 256, 300, 700][rng.random_range(0..4)];
+                return json!({"kind": "batched", "sizes": many, "sort": rng.random_bool(0.5), "shuffle": false,
+                              "pf": 1, "limit": lim, "ltype": "count", "seed": rng.random::<u32>()});
+            }
             json!({"kind": "batched", "sizes": sizes, "sort": rng.random_bool(0.5), "shuffle": rng.random_bool(0.5),
                    "pf": rng.random_range(0..=4), "limit": limit,
                    "ltype": if rng.random_bool(0.5) { "count" } else { "padded" }, "seed": rng.random::<u32>()})
